@@ -194,6 +194,49 @@ func runC04(p *core.Prog, r *core.Report, tier string) {
 	}
 	r.Floor("C04.h reads of attester duty arrays", nSrc, 10)
 
+	// (i) the per-validator working arrays of an attestation run belong to the run: what is handed to the signer and
+	// to the attestation constructor is allocated in the call (runs of different slots overlap while the signer is
+	// waited for; arrays kept in the service would be overwritten by the later run)
+	nArr := 0
+	for _, f := range p.FuncsIn(attRel) {
+		for _, ci := range core.Calls(f, func(c *ssa.CallCommon) bool {
+			if c.IsInvoke() {
+				return strings.HasPrefix(c.Method.Name(), "SignBeaconAttestation")
+			}
+			callee := c.StaticCallee()
+			return callee != nil && callee.Pkg == f.Pkg && callee.Signature.Recv() != nil
+		}) {
+			for ai, a := range ci.Common().Args {
+				if _, isSlice := a.Type().Underlying().(*types.Slice); !isSlice {
+					continue
+				}
+				// follow re-slicing back to where the array comes from
+				v := a
+				for {
+					if sl, ok := v.(*ssa.Slice); ok {
+						v = sl.X
+						continue
+					}
+					break
+				}
+				ld, ok := v.(*ssa.UnOp)
+				if !ok {
+					continue
+				}
+				fa, ok := ld.X.(*ssa.FieldAddr)
+				if !ok || len(f.Params) == 0 || fa.X != ssa.Value(f.Params[0]) || f.Signature.Recv() == nil {
+					continue
+				}
+				nArr++
+				id, _, _ := core.FieldOfAddr(fa)
+				r.Violate("C04.i", fmt.Sprintf("%s|working-array-in-service|%s#%d", core.FnKey(f), id.Name, ai), p.Pos(ci.Pos()), "a per-validator array handed on by this run is kept in the service ("+id.String()+"): an overlapping run for another slot overwrites it while this one waits for the signer, and the attestations are built with the other slot's committee indices")
+			}
+		}
+	}
+	if nArr == 0 {
+		r.Hold("C04.i", "working-arrays-per-run", "", "no slice handed to the signer or a helper of the attester is held in a field of the service")
+	}
+
 	// (f) what is signed is what is submitted: the sign call and the constructor call in the same function share argument values
 	for _, f := range p.FuncsIn(attRel) {
 		signs := core.CallsNamed(f, "SignBeaconAttestations")
